@@ -43,6 +43,17 @@ claim("C04", "other",
       "Trusted: the abstract interpreter (sparse conditional constant propagation over MIR with enum-variant tags; unknown calls are TOP), MIR construction, callee resolution.",
       "variant-conditioned abstract interpretation + dominance/value-flow rules on MIR (custom rustc_private lint)")
 
+claim("C02", "other",
+      "Decides six structural necessary conditions over ALL protocol-building code (mpc/**, optimizer/**), hence for every compiled program: Send annotations are only placed on nop() results (C02.S, 44 sites); every protocol nop() receives a Send (C02.N); elements of a 3-out-of-3 zero sharing never reach a function's result un-sent (C02.Z - reports the known finding in mpc_psi); every Operation variant translated by an interactive protocol has its dependencies reshared by the planner and a marked node enters the mapping only via reshare() (C02.K, per variant by abstract interpretation); the de-duplication key contains annotations and annotated nodes are never folded (C02.O); literal party indices are valid (C02.P). That every value a party uses is derivable by that party (a per-node ownership type) is NOT decided.",
+      "DESIGN.md section 3, C02",
+      "Trusted: the may-value-flow engine (imprecision can only add producers, i.e. cause a report), the exceptions table for un-sent NOPs (1 entry), the list of interactive helpers, MIR construction.",
+      "builder value-flow (producer sets, taint) + variant-conditioned abstract interpretation over MIR (custom rustc_private lint)")
+claim("C19", "other",
+      "Decides only the share-provenance clause of the compiled join (the property's own last mechanism): rules S/N/Z of C02 restricted to mpc/mpc_psi.rs - Send only on NOPs, every NOP sent, zero-sharing elements sent before use as replicated shares. Reports the known finding (zero_pad_column, share_column, random_pad_columns). Relational semantics of joins are NOT decided.",
+      "DESIGN.md section 3, C19",
+      "Same trusted base as C02.",
+      "builder value-flow (producer sets, taint) over MIR (custom rustc_private lint)")
+
 ALL = ["C%02d" % i for i in range(1, 21)]
 
 def main():
